@@ -393,7 +393,33 @@ func c14GenCSV(w *c14Worker, r *gen.Rand, b *c14Batch, n int) {
 		if r.Intn(25) == 0 {
 			// malformed: a quoted field that is never closed (LazyQuotes cannot repair that)
 			txt := gen.Pick(r, []string{"a,b\n\"abc", "\"", "x,\"y\nz,w\n", "a,b\n\"abc\"x,d\n", "1,2\n3,\"4"})
-			b.add("from_csv | tovalue", &c14Case{pair: "csv", class: "bad:unterminated-quote", size: len(txt), in: txt, wantErr: true, check: c14MustErr("from_csv:parse-error-swallowed")})
+			// from_csv deliberately reads with LazyQuotes (format/csv/csv.go), so "malformed" is defined by the
+			// reference reader with the same leniency: where encoding/csv rejects, fq must raise; where the lenient
+			// reader accepts (an unterminated last quoted field), fq must return exactly the reference rows. (The
+			// oracle first demanded an error for every unterminated quote: more than the property states.)
+			rr := csv.NewReader(strings.NewReader(txt))
+			rr.LazyQuotes = true
+			rr.TrimLeadingSpace = true
+			refRows, refErr := rr.ReadAll()
+			b.add("from_csv | tovalue", &c14Case{pair: "csv", class: "bad:unterminated-quote", size: len(txt), in: txt, wantErr: refErr != nil, check: func(t *c14T, o c14Out) {
+				if refErr != nil {
+					if o.ok {
+						t.fail("from_csv:parse-error-swallowed", "malformed input accepted; result %s", c14Trunc(c14JSON(o.v), 200))
+					}
+					return
+				}
+				var want []any
+				for _, row := range refRows {
+					var rw []any
+					for _, f := range row {
+						rw = append(rw, f)
+					}
+					want = append(want, rw)
+				}
+				if !o.ok || c14JSON(o.v) != c14JSON(want) {
+					t.fail("from_csv:lenient-value-differs-from-reference", "lenient CSV: got %s want %s", c14Trunc(c14JSON(o.v), 200), c14Trunc(c14JSON(want), 200))
+				}
+			}})
 			continue
 		}
 		rows := 1 + r.Intn(6)
